@@ -5,6 +5,15 @@ ROOT = os.path.dirname(os.path.dirname(os.path.abspath(__file__)))
 
 # id -> (level category, technique, level text, level note, design ref)
 BUILT = {
+ "C01": ("fault_enumeration", "crash-point enumeration (hook-numbered points, child ended with _exit) x kill and power-loss models, recovered state vs an uncrashed reference run",
+         "Generated workloads (DDL, DML on indexed tables, transactions, checkpoints) under wal=ON, synchronous=FULL; every page mutation, file create/grow/remove/rename, WAL frame/flush/sync/truncate/rotate, catalog and meta write/sync is a numbered crash point (quick: stratified sample, thorough: every point); after the crash the directory is reopened as left (kill) and cut back to last-synced bytes per file (power loss); the observation must contain every acknowledged statement.",
+         "Expected states come from a reference run of TurDB itself. Power-loss model per file with durable metadata operations; no torn sectors. A verdict must reproduce twice. The power-loss model is a listed finding in its entirety (witnessed); the kill model remains armed. Needs hook H1.", "4 C01"),
+ "C02": ("fault_enumeration", "crash-point enumeration x kill/power models x synchronous modes; prefix-consistency against reference states; automatic vs streaming recovery compared",
+         "Same engine as C01 with synchronous OFF/NORMAL/FULL: reopening must succeed, every scan and index probe must work, and the observation must equal a statement-boundary state of the reference run (acknowledged prefix, or that plus the whole in-flight statement/transaction); for the kill model the degraded-mode PRAGMA recover_wal path (hook H3) runs on a copy of the same crashed directory and must give the same observation as automatic recovery.",
+         "Partial statements after a kill (no undo logging) and the power-loss model are listed findings (witnessed); open failures, recovery crashes and differences between the two recovery paths remain armed. Needs hooks H1, H3.", "4 C02"),
+ "C40": ("fault_enumeration", "crash-point enumeration restricted to catalog/meta/file-set rewrites during DDL, kill and power-loss models",
+         "DDL-heavy generated workloads; crash points of kind catalog_*, meta_*, file_create/remove/rename; after the crash the database must open and every table and index that existed before the interrupted DDL statement must still be there with its rows (reference observation at the previous or next statement boundary).",
+         "The catalog round-trip through save/load is exercised through the SQL-visible schema (reopen after every DDL in C21/C04) rather than through the private serializer API. Power-loss model is a listed finding. Needs hook H1.", "4 C40"),
  "C08": ("exploration", "proptest statement-level interleavings over cloned handles vs a snapshot-isolation model (anomalies classified)",
          "Generated interleavings of 2-3 cloned handles (autocommit statements and explicit transactions; point writes, full and point reads; WAL on/off) issued from one thread so the schedule is owned; a snapshot-isolation model predicts every read and which COMMITs may succeed; each divergence is classified as dirty read / non-repeatable read / phantom / lost update / own write invisible / other.",
          "The five classic anomaly classes are listed findings (TurDB has no isolation between handles) and are tolerated by signature; any other divergence (a value never written, a failing COMMIT/ROLLBACK without conflict) is a violation. Real-thread races are out of reach (schedule not owned).", "4 C08"),
